@@ -141,7 +141,7 @@ status_t StringMatcher :: SetPattern(const String & s, bool isSimple)
                   // Inside a [...] expression the characters are just members of the set (e.g. [?*.] matches a question mark, a star, or a dot), so we don't transform them
                        if (c == '\\')                             escapeMode = true;
                   else if ((c == ']')&&(numCharsInBrackets > 0)) numCharsInBrackets = MUSCLE_NO_LIMIT;  // end of the [...] expression (a ']' right after the '[' or '[^' is a set-member)
-                  else if ((c != '^')||(numCharsInBrackets > 0)) numCharsInBrackets++;
+                  else if ((c != '^')||(numCharsInBrackets > 0)||(ptr[-1] != '[')) numCharsInBrackets++;  // (only a '^' directly after the '[' is the complement-marker rather than a set-member)
                }
                else
                {
